@@ -266,7 +266,9 @@ yprp_stmt(struct lys_ypr_ctx *pctx, struct lysp_stmt *stmt)
     uint16_t tflags = 0;
 
     if (stmt->arg) {
-        if (stmt->flags) {
+        if ((stmt->flags & (LYS_SINGLEQUOTED | LYS_DOUBLEQUOTED)) || !stmt->arg[0] || strpbrk(stmt->arg, " \t\n\r;{}\"'") ||
+                strstr(stmt->arg, "//") || strstr(stmt->arg, "/*") || strstr(stmt->arg, "*/")) {
+            /* quoted in the source or, when there is no such information (YIN), not valid without quotes */
             if (stmt->flags & LYS_SINGLEQUOTED) {
                 tflags |= LYS_YPR_TEXT_SINGLEQUOTED;
             }
